@@ -250,7 +250,7 @@ func runC02(ctx *ev.Ctx) {
 			ctx.Report("", generalise(what), what+" | case: "+h.Desc(), map[string]interface{}{"hist": h})
 		}
 	})
-	ctx.Rule = rule + " PLUS every sequence of <=4 (thorough 5) assembly operations {NewAVP by int / uint32 / name, AddAVP, InsertAVP, Marshal} over seven atoms with payload length mod 4 = 0..3, with and without vendor id (one with a vendor id but no V flag given), checking Header.MessageLength and the reference image after every operation; PLUS complete sweeps (see sweep_* keys)."
+	ctx.Rule = rule + " PLUS every sequence of <=4 (thorough 5) assembly operations {NewAVP by int / uint32 / name, AddAVP, InsertAVP, Marshal} over seven atoms with payload length mod 4 = 0..3, with and without vendor id (one with a vendor id but no V flag given), checking Header.MessageLength and the reference image after every operation; PLUS complete sweeps (see sweep_* keys). WriteTo images are taken by a destination that lets another message pass through WriteTo on another writer before it consumes its bytes."
 	ctx.Assume = []string{"refcodec (independent RFC 6733 encoder/decoder, written from the RFC) is correct; self-tested against the RFC layouts"}
 }
 
